@@ -1,0 +1,17 @@
+//go:build verif
+
+package stores
+
+import "time"
+
+// VerifGC runs one garbage-collection pass of the result store, i.e. what the gc ticker of
+// Start does every gcInterval. Test instrumentation (build tag verif), not used by the plugin.
+func (s *resultStore) VerifGC() { s.gc() }
+
+// VerifSetStoreTTL sets the staging time-to-live and returns the previous value, so that a
+// real-clock stress test can cross the TTL in milliseconds.
+func VerifSetStoreTTL(d time.Duration) time.Duration {
+	old := storeTTL
+	storeTTL = d
+	return old
+}
